@@ -53,6 +53,10 @@ def setup():
 FAULTS = ["RenderError", "RuntimeError", "StopIteration", "KeyboardInterrupt"]
 
 
+def animated_kind(kind):
+    return kind in ("grid", "sub")
+
+
 @st.composite
 def cases(draw):
     kind = draw(st.sampled_from(["still", "grid", "grid", "sub", "stream"]))
@@ -91,6 +95,12 @@ def cases(draw):
         if k == "resize":
             o["cols"], o["rows"] = draw(st.integers(1, 12)), draw(st.integers(1, 8))
         ops.append(o)
+    if animated_kind(kind) and draw(st.booleans()):
+        # the pattern the cache makes delicate: a complete first loop (+1), a setting change, another frame
+        ops += [{"op": "new_iter", "pad": ["exact", 0, 0, 0, 0], "fill": " ", "ctor": draw(st.sampled_from(["init", "from_data"])),
+                 "loops": draw(st.sampled_from([2, -1])), "cache": True},
+                {"op": "it_nexts", "i": -1, "k": n + draw(st.integers(0, 2))},
+                {"op": "it_ctl", "i": -1}, {"op": "it_next", "i": -1}, {"op": "it_nexts", "i": -1, "k": n}]
     c["ops"] = ops
     return c
 
